@@ -12,6 +12,7 @@
 (* a named disagreement is still rejected:                                                                      *)
 (*   attrsSorted          reference form, document with the attributes of every element in name order            *)
 (*   xmlnsXml:<form>      <form> on the document with xmlns:xml declared explicitly on the document element      *)
+(*   noCdata:<form>       <form> on the document with its CDATA sections written as escaped character data          *)
 (* (two more classes are repaired and their control experiments gone - a recurrence is an unnamed tree            *)
 (*  disagreement: doctypeNodeXercesDOM, the node test node() no longer accepts the DocumentType node of a         *)
 (*  DOM-backed source; sourceTreeTargetDropsCdataText, FormatterToSourceTree::cdata() adds the characters as text) *)
@@ -38,6 +39,8 @@ KD(s, cfg, obs) ==
        THEN " KD=attrOrderXercesDOM"             \* the DOM-backed form behaves as the native form does on the name-ordered document
      ELSE IF cfg.src \in DomSrcs /\ Has(s, "xmlnsXml:" \o f) /\ Agree(m, Ctrl(s, "xmlnsXml:" \o f), s.ref)
        THEN " KD=xmlNamespaceNodeXercesDOM"      \* with xmlns:xml declared in the document the same form agrees
+     ELSE IF cfg.src \in DomSrcs /\ Has(s, "noCdata:" \o f) /\ Agree(m, Ctrl(s, "noCdata:" \o f), s.ref)
+       THEN " KD=cdataSectionSeparateTextNodeXercesDOM"      \* with the CDATA sections written as escaped character data the same form agrees
      ELSE ""
 
 (* which part of Run(cfg, ..) failed *)
